@@ -6,6 +6,25 @@ def lookup(prop):
     if prop == "C18":
         from harness import check_c18b
         checks_core.EXTRAS["C18"] = check_c18b.run_signum
+    if prop == "C13":
+        from harness import check_c13a
+        checks_core.EXTRAS["C13"] = check_c13a.run_cmdline
+    if prop == "C08":
+        from harness import check_pidfile
+
+        def c08_extra(verdict, tier, seed, scratch):
+            cov = check_pidfile.run_pidfile(verdict, tier, seed, scratch)
+            try:
+                from harness import check_c08live
+                live = check_c08live.run_live_shutdown(verdict, tier, seed, scratch)
+                cov = dict(cov or {})
+                cov["live_shutdown"] = live
+                cov["traces_validated_against_impl"] = int(cov.get("traces_validated_against_impl", 0)) + int(
+                    (live or {}).get("traces_validated_against_impl", 0))
+            except ImportError:
+                pass
+            return cov
+        checks_core.EXTRAS["C08"] = c08_extra
     if prop in checks_core.PROPS:
         return checks_core.run
     if prop == "C06":
